@@ -51,6 +51,11 @@ class Task:
         self.thorough_only = thorough_only
         self.cvc5_first = cvc5_first  # string-heavy obligations: ask cvc5 before z3
         self.cover = True  # path-witness (cover) queries; a task without a native family may switch them off
+        # a task shared from another property's module (e.g. the journal tasks of C13 run under C05): the module whose
+        # witness_case / witness_agrees / replay_case / violates understand it, and the property whose known-finding
+        # classes apply to it
+        self.hooks = None
+        self.owner_pid = None
 
 
 class Bounded:
@@ -184,7 +189,8 @@ def _worker(args):
         core.Z3_OUT_OF_PROCESS = bool(getattr(task, "z3_out_of_process", False))
         res = run_task(task.name, task.harness, task.cfg_factory or Config, repo=Repo(REPO),
                        timeout_ms=task.timeout_ms, max_paths=task.max_paths, prune=task.prune,
-                       known_classes=known_classes_for(_KNOWN, task.name),
+                       known_classes=known_classes_for(_KNOWN + (load_known(task.owner_pid) if task.owner_pid else []),
+                                                       task.name),
                        want_cover=getattr(task, "cover", True))
         return {
             "task": tname, "paths": res.paths, "infeasible": res.infeasible, "outside": res.outside,
@@ -258,6 +264,15 @@ def do_replay(mod, path):
         return 1
     obs = run_native(rp["family"], [case])[0]
     print(json.dumps({"case": case, "observed": obs}, indent=1, default=str))
+    if rp.get("hooks_module"):
+        # the obligation belongs to a task shared from another property's module
+        hp = os.path.join(VERIF, "contracts", os.path.basename(rp["hooks_module"]))
+        spec = importlib.util.spec_from_file_location("contract_hooks_for_replay", hp)
+        mod = importlib.util.module_from_spec(spec)
+        spec.loader.exec_module(mod)
+        pf = rp.get("hooks_prefix") or ""
+        if pf and rp.get("obligation", "").startswith(pf):
+            rp = dict(rp, obligation=rp["obligation"][len(pf):])
     bad = mod.violates(rp, obs) if hasattr(mod, "violates") else obs.get("violation")
     print("REPRODUCED" if bad else "NOT-REPRODUCED")
     return 1 if bad else 0
@@ -268,6 +283,8 @@ def run_check(mod, prop, tier, seed, a, t0):
     repo = Repo(REPO)
     tasks = [t for t in prop.tasks if tier == "thorough" or not t.thorough_only]
     known = load_known(pid)
+    for op in sorted({t.owner_pid for t in tasks if t.owner_pid and t.owner_pid != pid}):
+        known = known + load_known(op)
     results = []
     ctxm = mp.get_context("fork")
     with ctxm.Pool(min(a.jobs, max(1, len(tasks)))) as pool:
@@ -331,18 +348,18 @@ def run_check(mod, prop, tier, seed, a, t0):
 
     # ---- path witnesses on CPython (engine cross-check)
     xchk = {"replayed": 0, "disagreements": []}
-    if hasattr(mod, "witness_case"):
+    if True:
         per_family = {}
         rnd = random.Random(seed)
         for r in results:
             t = tmap[r["task"]]
-            if not t.native or t.expect_refuted:
+            if not t.native or t.expect_refuted or not hasattr(t.hooks or mod, "witness_case"):
                 continue
             covs = [c for c in r["covers"] if c.get("inputs") is not None]
             if tier == "quick" and len(covs) > 60:
                 covs = rnd.sample(covs, 60)
             for c in covs:
-                case = mod.witness_case(t, c)
+                case = (t.hooks or mod).witness_case(t, c)
                 if case is not None:
                     per_family.setdefault(t.native, []).append((t, c, case))
         for fam, lst in per_family.items():
@@ -350,7 +367,7 @@ def run_check(mod, prop, tier, seed, a, t0):
             for (t, c, case), o in zip(lst, obs):
                 xchk["replayed"] += 1
                 exp = [n for n in c["notes"] if isinstance(n, (list, tuple)) and n and n[0] == "outcome"]
-                if exp and not mod.witness_agrees(t, c, exp[-1][1], o):
+                if exp and not (t.hooks or mod).witness_agrees(t, c, exp[-1][1], o):
                     xchk["disagreements"].append({"task": t.name, "path": c["path"], "inputs": c["inputs"],
                                                   "engine": exp[-1][1], "cpython": o})
 
@@ -424,18 +441,22 @@ def run_check(mod, prop, tier, seed, a, t0):
         rp = {"property": pid, "obligation": f"{key[0]}.{v['name']}", "path": v["path"], "model": v["model"],
               "solver_output": v.get("detail", ""), "backend": v.get("backend")}
         suffix = " no-failing-input-found"
-        if t is not None and v["model"] is not None and hasattr(mod, "replay_case"):
+        hm = (t.hooks if t is not None and t.hooks is not None else mod)
+        if t is not None and v["model"] is not None and hasattr(hm, "replay_case"):
             try:
-                case = mod.replay_case(t, v)
+                case = hm.replay_case(t, v)
                 if case is not None:
                     ck = json.dumps(case, sort_keys=True, default=str)
                     if ck not in replay_memo:
                         replay_memo[ck] = run_native(case["family"], [case["case"]])[0]
                     obs = replay_memo[ck]
                     rp["family"] = case["family"]
+                    if hm is not mod:
+                        rp["hooks_module"] = os.path.basename(getattr(hm, "__file__", ""))
+                        rp["hooks_prefix"] = getattr(hm, "prefix", "")
                     rp["native_case"] = case["case"]
                     rp["observed"] = obs
-                    if mod.violates(rp, obs):
+                    if hm.violates(rp, obs):
                         suffix = ""
                         rp["reproduced"] = True
                     else:
